@@ -1,7 +1,7 @@
 (* C09 -- Schedules conclude, repeat and report exhaustion exactly as documented
    Property theorems only: each proof is one application of a lemma proved in Proofs/, followed by Print Assumptions. *)
 From Coq Require Import ZArith List Bool.
-From CS Require MSTerm OnlineFlags Flags RevConv RevBridge4 RevolveRun.
+From CS Require MSTerm OnlineFlags Flags RevConv RevBridge4 RevolveRun PassRepeat Online.
 From CS Require Import Actions NAdvance Multistage Exec Sched RunFacts Projections BasicInv MultistageRun AllocTotal TLBridge MixBridge.
 Import ListNotations.
 Open Scope Z_scope.
@@ -132,10 +132,41 @@ Proof. exact (@MixBridge.mixed_terminates). Qed.
 Print Assumptions C09_mixed_terminates.
 End M_C09_mixed_terminates.
 
-(* PARTIAL: termination measure of the Multistage machine decreases at every yielded action (so the final action is reached); "each further pass is an exact repeat of the first" is covered by executability for every k above, the literal equality of passes by correspondence + oracle *)
-Module M_C09_multistage_terminates_partial.
+(* EXACT REPEAT (SingleMemory, SingleDisk copy, TwoLevel): two loop-head states of the same object (r = 0, not exhausted, same class / pc / max_n; n and -- for TwoLevel -- the emptied snapshot list may differ) emit the same outcomes for ever (outs j = the outcomes of j requests) *)
+Module M_C09_passes_repeat.
+Import PassRepeat.
+Theorem C09_passes_repeat :
+  forall (s1 s2 : Online.st) (j : nat),
+         loop_head s1 ->
+         loop_head s2 ->
+         Online.k s1 = Online.k s2 ->
+         Online.pcv s1 = Online.pcv s2 ->
+         Online.max_n_ (Online.b s1) = Online.max_n_ (Online.b s2) ->
+         Online.pcv s1 = Online.PTOuter \/ Online.snaps s1 = Online.snaps s2 -> outs j s1 = outs j s2.
+Proof. exact (@PassRepeat.passes_repeat). Qed.
+Print Assumptions C09_passes_repeat.
+End M_C09_passes_repeat.
+
+(* ... and the request that yields EndReverse of a non-exhausting object leaves it in such a loop head with the same class and max_n; the head reached by EndForward is of the same form (C09_*_passes give executability of every pass) *)
+Module M_C09_after_endreverse.
+Import PassRepeat.
+Theorem C09_after_endreverse :
+  forall s s' : Online.st,
+         Online.next s = (s', Actions.Yield Actions.EndReverse) ->
+         Online.exh s' = false ->
+         Online.r_ (Online.b s') = 0 /\
+         match Online.pcv s' with
+         | Online.PMemRev | Online.PDiskLoop | Online.PTOuter => True
+         | _ => False
+         end /\ Online.k s' = Online.k s /\ Online.max_n_ (Online.b s') = Online.max_n_ (Online.b s).
+Proof. exact (@PassRepeat.after_endreverse). Qed.
+Print Assumptions C09_after_endreverse.
+End M_C09_after_endreverse.
+
+(* (auxiliary) termination measure of the Multistage machine decreases at every yielded action *)
+Module M_C09_multistage_measure.
 Import MSTerm.
-Theorem C09_multistage_terminates_partial :
+Theorem C09_multistage_measure :
   forall adv : Z -> Z -> Z,
          (forall m k : Z, 2 <= m -> 1 <= k -> 1 <= adv m k <= m - 1) ->
          (forall m : Z, 2 <= m -> adv m 1 = m - 1) ->
@@ -155,6 +186,6 @@ Theorem C09_multistage_terminates_partial :
          | _ => True
          end.
 Proof. exact (@MSTerm.mu_decreases). Qed.
-Print Assumptions C09_multistage_terminates_partial.
-End M_C09_multistage_terminates_partial.
+Print Assumptions C09_multistage_measure.
+End M_C09_multistage_measure.
 
